@@ -323,6 +323,8 @@ if second is not None and (orig.exists() or kind != 'NP2.4') and fault1 is None:
         r2.init_params(nwindow=1200); st2 = r2.process(overwrite=(second == 'T'))
         if second == 'F' and kind in ('NP2.4', 'NP2.1') and (st2 != 0 or listing() != before): bad.append(f'repeated run without overwrite: status {{st2}}, listing changed {{listing() != before}}')
         if second == 'T' and kind == 'NP2.4' and st2 != 1: bad.append('forced rerun status')
+        if second == 'T' and kind == 'NP2.4' and st2 == 1 and not all(shank_ok(s) for s in (0, 1)):
+            bad.append('forced re-run does not leave a complete valid set of per-shank files: ' + str([(str(p.relative_to(root)), p.stat().st_size) for p in sorted(root.rglob('*.ap.*bin'))]))
     except Exception as e:
         bad.append(f'run 2 (overwrite={{second}}, opts={{opts}}) raised {{type(e).__name__}}: {{e}}')
     if not recoverable(): bad.append('original not recoverable after run 2')
